@@ -6,7 +6,7 @@ set -u
 cd "$VERIF_ROOT"
 ID="$1"; TIER="${2:-${VERIF_TIER:-quick}}"
 mkdir -p bin work evidence replays
-cp /repo/go.sum go.sum 2>/dev/null
+cp "$VERIF_REPO/go.sum" go.sum 2>/dev/null
 case "$ID" in
   C11|C19) BIN=bin/check-overlay; scripts/build-overlay.sh || exit $?
      if [ "$ID" = C19 ]; then
